@@ -27,6 +27,7 @@ FAULTS = {
     'undefined-in-if': [['.if nosuch', '.endif'], ['.if 1 + nosuch', '  nop', '.endif']],
     'data-range': ['  .db 256', '  .db -129', '  .dw 65536', '  .dw "ab"'],
     'error-directive': ['.error "stop here"'],
+    'fault-behind-deciding-operand': ['  .dw 0 && nosuch', '  ldi r16, 1 || nosuch', ['.if 0 && nosuch', '.endif'], '.set sv_z = 0 && nosuch', '  .dw 1 || 1/0', '  .db 0 && exp2(64)', ['.if 1 || nosuch', '.endif']],
     'misplaced': [['.dseg', '  nop', '.cseg'], ['.dseg', '  .db 1', '.cseg'], ['.dseg', '  .dw 1', '.cseg'], ['  .byte 2'], ['.eseg', '  ldi r16, 1', '.cseg']],
     'branch-to-far-label': [['  breq c15_far', '  .org 0x3000', 'c15_far:']],
     'macro-argument-missing': [['.macro c15_m2', '  ldi @0, @1', '.endm', '  c15_m2 r16']],
@@ -218,6 +219,7 @@ def run(tier, seed, model_ok):
             expected = []
             def mk(path, depth):
                 lines = []
+                for _ in range(rng.choice([0, 0, 1, 3])): lines.append(rng.choice(['', '', ' ', '\t']))     # files may begin with blank lines: they count
                 for j in range(rng.randrange(1, 5)):
                     k = rng.random()
                     if k < .4:
